@@ -648,6 +648,8 @@ def generate(prop, seed, tier):
            'granularity': 'line' if (not thorough or sr.random() < 0.85) else 'call',
            'workers': [kn.choice([1, 1, 2, 16]), kn.choice([1, 1, 2, 16])],
            'rule_flip': None, 'stall': None, 'faults': []}
+    if rng.stream(seed, 'dtypeb').random() < 0.15:
+        scn['tdtype_b'] = rng.stream(seed, 'dtypeb2').choice(['uint8', 'int16', 'float32'])
     if rng.stream(seed, 'kernelpy').random() < 0.25 and max(max(p) for p in sets) <= 60:
         # the accumulation kernels run from their Python source: their lines are pre-emption points (interleavings inside the kernels)
         scn['kernel_py'] = True
@@ -711,7 +713,15 @@ def make_sets(scn):
         if td == np.dtype('int16') and scn.get('wide16'):
             amp = scn['wide16']          # 12-bit / full-scale 16-bit acquisitions: sums of squares beyond 2^31 within a few traces
         p = []
-        for n in pair:
+        td_a, amp_a = td, amp
+        for which, n in enumerate(pair):
+            td, amp = td_a, amp_a
+            if which == 1 and scn.get('tdtype_b'):
+                # the second set was acquired with another storage dtype than the first
+                td = np.dtype(scn['tdtype_b'])
+                amp = min(scn['amp'], 254) if td == np.dtype('int8') else scn['amp']
+                if td == np.dtype('int16') and scn.get('wide16'):
+                    amp = scn['wide16']
             raw = g.integers(0, 1 << 16, (max(64, n), 8))
             s = raw[:n, :scn['m']] % (amp + 1)
             if td.kind != 'u':
